@@ -246,7 +246,7 @@ func run(e *core.Env) {
 	nOps := 4 + tp.Intn(40)
 	for op := 0; op < nOps; op++ {
 		e.Step()
-		kind := tp.Pick(5, 4, 5, 3, 5, 3, 5, 2)
+		kind := tp.Pick(5, 4, 5, 3, 5, 3, 5, 2, 2)
 		if len(live) == 0 && kind >= 2 {
 			kind = tp.Intn(2)
 		}
@@ -478,6 +478,33 @@ func run(e *core.Env) {
 				b.ReturnPooledSlice(ps)
 			}
 			e.Fault("failed_parse")
+			verifyAll(how)
+
+		case 8: // a build that must fail (message, switch block or appendix beyond the format's limits)
+			sbD, msgD, apxD := tp.Bytes(tp.Intn(40)), tp.Bytes(1+tp.Intn(300)), tp.Bytes(tp.Intn(40))
+			switch tp.Intn(4) {
+			case 0:
+				msgD = tp.Bytes(10001 + tp.Intn(300))
+			case 1:
+				sbD = tp.Bytes(256 + tp.Intn(300))
+			case 2:
+				msgD = nil
+			default:
+				apxD = tp.Bytes(10001 + tp.Intn(300))
+			}
+			how := fmt.Sprintf("failedNew(sb=%d msg=%d apx=%d)", len(sbD), len(msgD), len(apxD))
+			hist = append(hist, how)
+			var f *frame.FrameV1
+			var err error
+			if e.Guard("panic", func() { f, err = b.NewFrameV1(addr(tp), addr(tp), msgTypes[tp.Intn(len(msgTypes))], sbD, msgD, apxD) }) {
+				e.Fail("", "")
+			}
+			if err == nil {
+				// the format took it after all: treat it as an ordinary live frame
+				f.ReturnToPool()
+				continue
+			}
+			e.Fault("failed_build")
 			verifyAll(how)
 
 		case 6: // release
